@@ -65,7 +65,7 @@ CONSTANTS Mode,               \* "pure" | "pipeline"
           Encs,               \* pipeline: how the spans are sent ("json", "msgpack": /1/batch; "event": /1/events)
           Auths,              \* pipeline: "ok": the environment lookup answers; "fail": it fails (401, 5xx)
           WithReload,         \* pipeline: rules reloads are explored
-          Faithful,           \* TRUE: the known deviations of the code are in the graph
+          Faithful,           \* FALSE: property / repaired code; TRUE: the code before its repair (see IngestDespiteFailedLookup)
           UpperHexIsClassic   \* the open reading
 
 VARIABLES cfg,    \* [prefix, rules, dflt]: DatasetPrefix, targets in the rules file, kind of __default__
@@ -261,10 +261,14 @@ IngestRefused(r) ==
   /\ act' = [name |-> "Ingest", key |-> r.key, env |-> r.env, ds |-> r.ds, enc |-> r.enc, auth |-> r.auth,
              need |-> Def(Default, cfg.dflt).ing]
 
-\* KNOWN DEVIATION lookup-failed-sampled-by-default (route.go batch: no return
-\* after the error answer; the finding and its repair are C23's): the spans are
-\* processed with an empty environment name, so the trace of an environment key
-\* is decided by __default__ instead of its environment's sampler.
+\* DEVIATION lookup-failed-sampled-by-default, repaired in /repo (route.go batch
+\* had no return after the error answer; finding and repair are C23's): the
+\* spans were processed with an empty environment name, so the trace of an
+\* environment key was decided by __default__ instead of its environment's
+\* sampler.  Kept for MC_SamplerSelect_pipe_unpatched.cfg (not part of the
+\* check), where TLC shows NoUnknownEnvironmentIngested / DecisionFollowsRules
+\* failing; the checked configurations have Faithful = FALSE, so code that
+\* behaves like this again is a VIOLATION.
 IngestDespiteFailedLookup(r) ==
   /\ Faithful
   /\ Mode = "pipeline"
@@ -399,21 +403,7 @@ DecisionFollowsRules ==
            /\ res'.spans = out.spans
            /\ Def(t, cfg.dflt).ing \subseteq out.availSet]_vars
 
-\* the same, leaving out the traces that entered through the known deviation
-\* (used where the graph contains it: Faithful = TRUE)
-DecisionFollowsRulesExceptKnown ==
-  [][(act'.name = "Decide" /\ cur.auth # "fail") =>
-        LET dest == IF IsClassic(cur.key)
-                    THEN (IF cfg.prefix = "" THEN cur.ds ELSE cfg.prefix \o "." \o cur.ds)
-                    ELSE (IF cur.key.len = 0 THEN "" ELSE cur.env)
-            t    == IF dest \in cfg.rules THEN dest ELSE Default
-        IN /\ res'.reason = Def(t, cfg.dflt).reason
-           /\ res'.keySet = Def(t, cfg.dflt).key
-           /\ res'.spans = out.spans
-           /\ Def(t, cfg.dflt).ing \subseteq out.availSet]_vars
-
-\* a trace whose environment could not be determined is not taken in (holds
-\* of the ideal specification, Faithful = FALSE)
+\* a trace whose environment could not be determined is not taken in
 NoUnknownEnvironmentIngested ==
   (Mode = "pipeline" /\ phase = "pending") => cur.auth # "fail"
 
